@@ -160,6 +160,12 @@ def step (st : St) (ts : List String) : St × String :=
       | (st', some msg) => (st', msg)
     | some m, none, _ => (st, "reject " ++ site m "Clone" ++ " bad-output " ++ " ".intercalate out)
     | _, _, _ => (st, "reject bad-op")
+  | "comm" :: v :: toks => match v.toNat?, commGroups (fun n => (st.get n).map (·.ideal)) toks, out with
+    | some v, some (ors, ands), [a] =>
+      -- spec: in the union of some `or` group and in the union of every `and` group (Props.commutative_contains)
+      let e := toString (commDuplexesContains ors ands v)
+      if a == e then (st, "ok") else (st, s!"reject CommutativeDuplexes.Contains wrong-answer v={v}: expected={e} got={a}")
+    | _, _, _ => (st, "reject bad-op")
   | ["nd", o, x] => match parseOp o with
     -- operand is not a Duplex: outside the property's statement; the type switch has no case for it and the
     -- receiver must at least stay what it was
